@@ -2,6 +2,7 @@
 import re
 
 from vlib import Unit
+from rsx import LostAnchor
 
 SRC = 'crates/grafeo-common/src/memory/buffer/manager.rs'
 REG = 'crates/grafeo-common/src/memory/buffer/region.rs'
@@ -190,6 +191,14 @@ def build(repo):
               ' && forall|k: int| 0 <= k < 4 && k != region.index_spec() ==> final(self).region_allocated@[k] == old(self).region_allocated@[k]')
     f.ensures('refusal_allocates_nothing', 'g is None ==> ' + POST_NO)
     f.ensures('frame', FRAME)
+    # E2 soundness guard: the rule replaces each atomic operation by the same operation on a plain field, which is only meaningful when every update of a
+    # counter is ONE atomic read-modify-write.  A load followed by a store of the same atomic is a non-atomic read-modify-write whose result depends on the
+    # interleaving: the sequential text would still verify, so it is refused (exit 2, UNDECIDED) rather than "proved".
+    for lbl in u.order:
+        pc = u.pieces[lbl]
+        if pc.kind == 'fn' and re.search(r'\.(store|swap|compare_exchange(_weak)?)\s*\(', pc.text) and 'Ordering::' in pc.text:
+            raise LostAnchor('rule E2 refuses %s: it writes an atomic with store/swap/compare_exchange instead of a single fetch_add/fetch_sub; whether the counters stay exact '
+                             'then depends on the interleaving, which this technique does not cover' % lbl)
     u.assume('SEQUENTIAL ONLY: atomics are executed as plain reads/writes (rule E2); the check-then-increment window of try_allocate under concurrency, ids, torn indexes, epochs and deadlocks are NOT decided (schedules_covered: 0)')
     u.assume('run_eviction_internal is under an ASSUMED contract (trait-object consumers + RwLock are outside Verus); run_eviction_cycle / check_pressure / pressure_level are verified against it')
     u.not_covered += ['every interleaving (no thread reasoning in either verifier here)', 'LpgStore / RdfStore / adjacency / WAL concurrent paths', 'run_eviction_internal (assumed), register/unregister_consumer, evict_to_target, arena.rs']
